@@ -560,6 +560,28 @@ theorem T_C20_elbow_chain (tol : Rat) (isDisk : Bool) :
 
 /-! ### the whole catalogue in one statement -/
 
+/-! ### round 6b: the sector angle of an `Angle` edge, the ends of an edge -/
+
+/-- `arc_from_theta` (the `Angle` edge) is rejected iff the sector angle is zero or leaves (−2π, 2π) on *either* side
+    (`twoPi` is the float the code compares with) -/
+theorem T_C20_arc_theta (tol a twoPi : Rat) :
+    (run tol (.arcTheta a twoPi)).isReject = true ↔ ¬ (a ≠ 0 ∧ -twoPi < a ∧ a < twoPi) := by
+  simp only [run, checks_isReject, List.any_cons, List.any_nil, Bool.or_false, Bool.not_eq_true', ← arcTheta_cond]
+  exact (Bool.not_eq_true _).symm ▸ Iff.rfl
+
+/-- opposite sector angles get the same verdict -/
+theorem T_C20_arc_theta_symmetric (tol a twoPi : Rat) :
+    run tol (.arcTheta (-a) twoPi) = run tol (.arcTheta a twoPi) := by
+  have habs : absR (-a) = absR a := by
+    unfold absR
+    by_cases h1 : a < 0 <;> by_cases h2 : -a < 0 <;> simp [h1, h2] <;> linarith
+  simp only [run, habs]
+
+/-- an edge is rejected iff one of its ends — either one — is not a `Vertex` -/
+theorem T_C20_edge_vertices (tol : Rat) (v1 v2 : Bool) :
+    (run tol (.edgeVertices v1 v2)).isReject = true ↔ ¬ (v1 = true ∧ v2 = true) := by
+  cases v1 <;> cases v2 <;> simp [run, checks, Out.isReject]
+
 /-- **Every guard of the catalogue rejects exactly the calls that violate the documented precondition**, for every
     tolerance and all arguments (`wf`: a stack has at least one shape and one row; a `Project` that receives a label
     already has one). -/
@@ -621,6 +643,8 @@ theorem T_C20_enforced (tol : Rat) (c : Call) (hwf : wf c = true) :
       | a :: b :: c :: rest => simp [pre]
   | polarArgs direction axis => rw [T_C20_polar_args]; exact not_iff_bnot (by simp [pre])
   | rotationLink leader origin axis => rw [T_C20_rotation_link]; exact not_iff_bnot (by simp [pre])
+  | arcTheta a t => rw [T_C20_arc_theta]; exact not_iff_bnot (by simp [pre, and_assoc])
+  | edgeVertices v1 v2 => rw [T_C20_edge_vertices]; exact not_iff_bnot (by simp [pre])
   | elbowChain isDisk => rw [T_C20_elbow_chain]; exact not_iff_bnot (by simp [pre])
 
 example : wf (.stackSlice 1 2 2 3 4) = true ∧ wf (.projectAddLabel [0] [1, 2]) = true := by decide
@@ -985,17 +1009,25 @@ example : (addClamp (1 / 10000000) [⟨0, 0, 0⟩] [0] ⟨0, 0, 0⟩).1.isReject
 
 /-! ## Round 6: the guards regenerated from the source -/
 
-/-- the rows the translator printed from the current source decode to the model's table of guards -/
-theorem T_C20_guards_table : decodeTable CBV.Gen.c20Guards = some modelGuardTable := by decide +kernel
+/-- the rows the translator printed from the current source: the same entry points in the same order as the
+    model's table, and every row that is not marked `untranslatable` decodes to the model's guards of that entry
+    point.  (A marked row — the translator met a construct it does not read — breaks the theorems about that one entry
+    point below, `genGuards e = G_e`, and nothing else.) -/
+theorem T_C20_guards_table :
+    CBV.Gen.c20Guards.map (·.1) = modelGuardTable.map (·.1) ∧
+    CBV.Gen.c20Guards.all (fun p => untranslatable p.1 || decide (decode p.2 = some (modelGuards p.1))) = true := by
+  decide +kernel
 
-/-- and they are exactly the encoding of the model's table (no row, token or constant more or less) -/
+/-- and they are exactly the encoding of the model's table (no token or constant more or less) -/
 theorem T_C20_guards_table_encoded :
-    CBV.Gen.c20Guards = modelGuardTable.map (fun p => (p.1, encode p.2)) := by decide +kernel
+    CBV.Gen.c20Guards.all (fun p => untranslatable p.1 || decide (p.2 = encode (modelGuards p.1))) = true := by
+  decide +kernel
 
 /-- every entry point of the table has guards (a translator that finds nothing fails; an empty table proves nothing) -/
 theorem T_C20_guards_table_nonempty :
     40 ≤ CBV.Gen.c20Guards.length ∧
-      CBV.Gen.c20Guards.all (fun p => !((genGuards p.1).flatMap Stmt.raises).isEmpty) = true := by decide +kernel
+      CBV.Gen.c20Guards.all (fun p => untranslatable p.1 || !((genGuards p.1).flatMap Stmt.raises).isEmpty) = true := by
+  decide +kernel
 
 /-! ### evaluating the regenerated guards on the arguments of a call gives the model's outcome, class included -/
 
@@ -1191,6 +1223,12 @@ theorem T_C20_guards_translated_polarArgs (tol : Rat) (rt : Rat → Rat) (d : In
   simp [G_polarCartesian, evalC, evalE, evalOp, envOf, nm, run, checks,
     eq_comm (a := (-1 : ℤ)), eq_comm (a := (1 : ℤ))]
 
+theorem T_C20_guards_translated_polarPolar (tol : Rat) (axis : String) :
+    runStmts { tol := tol, str := fun _ => axis } (genGuards "polarPolar")
+      = checks [(!(axis == "x" || axis == "z"), "ValueError")] := by
+  rw [show genGuards "polarPolar" = G_polarPolar by decide +kernel]
+  simp [G_polarPolar, evalC, checks]
+
 theorem T_C20_guards_translated_elbowChain (tol : Rat) (rt : Rat → Rat) (isDisk : Bool) :
     runStmts (envOf tol rt (.elbowChain isDisk)) (genGuards "elbowChain") = run tol (.elbowChain isDisk) := by
   rw [show genGuards "elbowChain" = G_elbowChain by decide +kernel]
@@ -1213,26 +1251,25 @@ theorem T_C20_guards_translated_polylineShape (tol : Rat) (rt : Rat → Rat) (di
       have := Nat.cast_nonneg (α := ℚ) (pyShape r).length
       linarith
 
-/-- the pairs of a `{a, b} in <pairs>` condition, as the translator resolved them from the source -/
-def pairsOf : List Stmt → List (Int × Int)
-  | [.s (.raise _ (.not (.pairin _ _ pairs)))] => pairs
-  | _ => []
-
-def samePair (p q : Int × Int) : Bool := (p.1 == q.1 && p.2 == q.2) || (p.1 == q.2 && p.2 == q.1)
-
-/- full statement (not proved: the case analysis over 12 × 12 unordered pairs is beyond `omega` within the budget):
-   runStmts (envOf tol rt (.frameAddBeam c1 c2)) (genGuards "frameAddBeam") = run tol (.frameAddBeam c1 c2).
-   Proved: the guard has the shape `if {corner_1, corner_2} not in <pairs>: raise ValueError` and its pairs are, as
-   unordered pairs, exactly the generated `EDGE_PAIRS` that the model's `validPair` looks up. -/
-theorem T_C20_guards_translated_frameAddBeam_partial :
-    genGuards "frameAddBeam" =
-      [.s (.raise "ValueError" (.not (.pairin (.var "corner_1") (.var "corner_2") (pairsOf (genGuards "frameAddBeam")))))] ∧
-    (pairsOf (genGuards "frameAddBeam")).length = 12 ∧
-    (pairsOf (genGuards "frameAddBeam")).all (fun p =>
-        CBV.Gen.edgePairs.any (fun q => samePair p (((q.1 : Nat) : Int), ((q.2 : Nat) : Int)))) = true ∧
-    CBV.Gen.edgePairs.all (fun q =>
-        (pairsOf (genGuards "frameAddBeam")).any (fun p => samePair p (((q.1 : Nat) : Int), ((q.2 : Nat) : Int)))) = true := by
-  decide +kernel
+/-- `Frame.add_beam`: `if {corner_1, corner_2} not in self.valid_pairs: raise ValueError` with the 12 pairs the translator
+    resolved from `Frame.valid_pairs`; they are the generated `EDGE_PAIRS` as unordered pairs, which is all the look-up
+    depends on (`pairHas_congr`) -/
+theorem T_C20_guards_translated_frameAddBeam (tol : Rat) (rt : Rat → Rat) (c1 c2 : Int) :
+    runStmts (envOf tol rt (.frameAddBeam c1 c2)) (genGuards "frameAddBeam") = run tol (.frameAddBeam c1 c2) := by
+  rw [show genGuards "frameAddBeam" = G_frameAddBeam by decide +kernel]
+  have hP : ∀ p ∈ framePairs, ∃ q ∈ edgePairsInt, samePair p q = true := by decide +kernel
+  have hQ : ∀ q ∈ edgePairsInt, ∃ p ∈ framePairs, samePair q p = true := by decide +kernel
+  have h := pairHas_congr framePairs edgePairsInt hP hQ c1 c2
+  have e1 : evalC (envOf tol rt (.frameAddBeam c1 c2)) (.pairin (.var "corner_1") (.var "corner_2") framePairs)
+      = pairHas framePairs c1 c2 :=
+    evalC_pairin _ "corner_1" "corner_2" c1 c2 framePairs (by simp [envOf, nm2]) (by simp [envOf, nm2])
+  have e2 : evalC (envOf tol rt (.frameAddBeam c1 c2))
+      (.not (.pairin (.var "corner_1") (.var "corner_2") framePairs)) = !(validPair c1 c2) := by
+    rw [evalC, e1, h, validPair_eq_pairHas]
+  simp only [G_frameAddBeam, runStmts_raise, runStmts_nil, run, checks]
+  rw [show (C.not (C.pairin (E.var "corner_1") (E.var "corner_2")
+        [(0, 1), (2, 3), (6, 7), (4, 5), (0, 3), (1, 2), (5, 6), (4, 7), (0, 4), (1, 5), (2, 6), (3, 7)]))
+      = C.not (C.pairin (E.var "corner_1") (E.var "corner_2") framePairs) from rfl, e2]
 
 /-- the state machines: the guards of `Mesh.grade`, `Mesh.backport`, `Junction.add_clamp`, `GridBase.add_link` -/
 theorem T_C20_guards_translated_mesh (s : MeshSt) :
@@ -1396,19 +1433,26 @@ theorem T_C20_guards_two_sided :
      ("opAddSideEdge", "corner_idx"), ("opProjectCorner", "corner"), ("opProjectEdge", "corner_1"),
      ("opProjectEdge", "corner_2"), ("blockAddEdge", "corner_1"), ("blockAddEdge", "corner_2"),
      ("lengthRatio", "chop.length_ratio"), ("curveParam", "param")].all
-      (fun p => twoSided p.2 (genGuards p.1)) = true := by decide +kernel
+      (fun p => untranslatable p.1 || twoSided p.2 (genGuards p.1)) = true := by decide +kernel
 
 /-- entry points that mirror each other carry the same guard: `Face.add_edge` / `Face.project_edge`,
     `Operation.project_edge` / `Block.add_edge`, `Cylinder` / `Frustum`, the three `chain`s, `Mesh.grade` /
     `Mesh.backport`, `to_polar` / `to_cartesian` (axis) — same conditions, in the same order -/
 theorem T_C20_guards_mirrored_entry_points :
-    genGuards "faceAddEdge" = genGuards "faceProjectEdge" ∧
-    genGuards "opProjectEdge" = genGuards "blockAddEdge" ∧
-    (genGuards "cylinder").flatMap Stmt.conds = (genGuards "frustum").flatMap Stmt.conds ∧
-    (genGuards "chainCylinder").flatMap Stmt.conds = (genGuards "chainFrustum").flatMap Stmt.conds ∧
-    (genGuards "chainCylinder").flatMap Stmt.conds = (genGuards "chainRing").flatMap Stmt.conds ∧
-    genGuards "meshGrade" = genGuards "meshBackport" ∧
-    (genGuards "polarPolar").flatMap Stmt.conds = ((genGuards "polarCartesian").flatMap Stmt.conds).drop 1 := by
+    (untranslatable "faceAddEdge" || untranslatable "faceProjectEdge" ||
+      decide (genGuards "faceAddEdge" = genGuards "faceProjectEdge")) = true ∧
+    (untranslatable "opProjectEdge" || untranslatable "blockAddEdge" ||
+      decide (genGuards "opProjectEdge" = genGuards "blockAddEdge")) = true ∧
+    (untranslatable "cylinder" || untranslatable "frustum" ||
+      decide ((genGuards "cylinder").flatMap Stmt.conds = (genGuards "frustum").flatMap Stmt.conds)) = true ∧
+    (untranslatable "chainCylinder" || untranslatable "chainFrustum" ||
+      decide ((genGuards "chainCylinder").flatMap Stmt.conds = (genGuards "chainFrustum").flatMap Stmt.conds)) = true ∧
+    (untranslatable "chainCylinder" || untranslatable "chainRing" ||
+      decide ((genGuards "chainCylinder").flatMap Stmt.conds = (genGuards "chainRing").flatMap Stmt.conds)) = true ∧
+    (untranslatable "meshGrade" || untranslatable "meshBackport" ||
+      decide (genGuards "meshGrade" = genGuards "meshBackport")) = true ∧
+    (untranslatable "polarPolar" || untranslatable "polarCartesian" ||
+      decide ((genGuards "polarPolar").flatMap Stmt.conds = ((genGuards "polarCartesian").flatMap Stmt.conds).drop 1)) = true := by
   decide +kernel
 
 /-! ### what a rejected call leaves behind -/
@@ -1442,5 +1486,16 @@ theorem T_C20_guards_mutation_before_guard_exceptions :
         = (.reject "FaceCreationError", ["self.edges"]) ∧
     (traceStmts (envOf 0 (fun _ => 0) (.faceRemoveEdges [-1, 0])) (genGuards "faceRemoveEdges") [])
         = (.reject "FaceCreationError", []) := by decide +kernel
+
+theorem T_C20_guards_translated_arcTheta (tol : Rat) (rt : Rat → Rat) (a twoPi : Rat) :
+    runStmts (envOf tol rt (.arcTheta a twoPi)) (genGuards "arcTheta") = run tol (.arcTheta a twoPi) := by
+  rw [show genGuards "arcTheta" = G_arcTheta by decide +kernel]
+  simp [G_arcTheta, evalC, evalE, evalOp, envOf, nm2, run, checks]
+
+theorem T_C20_guards_translated_edgeVertices (tol : Rat) (rt : Rat → Rat) (v1 v2 : Bool) :
+    runStmts (envOf tol rt (.edgeVertices v1 v2)) (genGuards "edgeVertices") = run tol (.edgeVertices v1 v2) := by
+  rw [show genGuards "edgeVertices" = G_edgeVertices by decide +kernel]
+  cases v1 <;> cases v2 <;> simp [G_edgeVertices, evalC, envOf, run, checks]
+
 
 end CBV.C20
